@@ -241,6 +241,96 @@ def _spread_tuple_stars(fn):
             n.args = new_args
 
 
+def _scalar_replace_records(fn, records: Dict[str, tuple]):
+    """A local bound once to a record constructor `r = Rec(a, b)` (Rec a namedtuple of the module) and only read afterwards is
+    split into one local per field: `r.f` becomes `r__f`, a bare `r` becomes `Rec(r__f1, r__f2)`.  Mutations through a field
+    (`r.data[k] = v`) then are mutations of a plain local, which the term layer follows."""
+    stores: Dict[str, list] = {}
+    for n in ast.walk(fn):
+        if isinstance(n, ast.Name) and isinstance(n.ctx, (ast.Store, ast.Del)):
+            stores.setdefault(n.id, []).append(n)
+    params = {a.arg for a in fn.args.args + fn.args.kwonlyargs + fn.args.posonlyargs}
+    cand = {}
+    for n in ast.walk(fn):
+        if isinstance(n, ast.Assign) and len(n.targets) == 1 and isinstance(n.targets[0], ast.Name) and isinstance(n.value, ast.Call) \
+                and isinstance(n.value.func, ast.Name) and n.value.func.id in records:
+            name = n.targets[0].id
+            fields = records[n.value.func.id]
+            if len(stores.get(name, [])) != 1 or name in params or any(isinstance(a, ast.Starred) for a in n.value.args) \
+                    or any(k.arg is None for k in n.value.keywords) or len(n.value.args) > len(fields):
+                continue
+            vals = list(n.value.args)
+            kw = {k.arg: k.value for k in n.value.keywords}
+            ok = True
+            for f in fields[len(vals):]:
+                if f not in kw:
+                    ok = False
+                    break
+                vals.append(kw[f])
+            if ok:
+                cand[name] = (n, n.value.func.id, fields, vals)
+    if not cand:
+        return
+
+    # a field initialised from a plain local that is bound once (or a never-rebound parameter) *is* that local
+    def field_name(rec, f):
+        _n, _c, fields, vals = cand[rec]
+        v = vals[fields.index(f)]
+        if isinstance(v, ast.Name) and v.id not in cand and len(stores.get(v.id, [])) <= 1:
+            return v.id
+        return f"{rec}__{f}"
+
+    class _R(ast.NodeTransformer):
+        def visit_Attribute(self, node):
+            if isinstance(node.value, ast.Name) and node.value.id in cand and node.attr in cand[node.value.id][2]:
+                return ast.copy_location(ast.Name(id=field_name(node.value.id, node.attr), ctx=node.ctx), node)
+            self.generic_visit(node)
+            return node
+
+        def visit_Name(self, node):
+            if isinstance(node.ctx, ast.Load) and node.id in cand:
+                _n, cls_, fields, _v = cand[node.id]
+                return ast.copy_location(ast.Call(func=ast.Name(id=cls_, ctx=ast.Load()),
+                                                  args=[ast.Name(id=field_name(node.id, f), ctx=ast.Load()) for f in fields], keywords=[]), node)
+            return node
+
+    class _A(ast.NodeTransformer):
+        def _stmts(self, body):
+            out = []
+            for st in body:
+                hit = next((nm for nm, (n, *_r) in cand.items() if n is st), None)
+                if hit is not None:
+                    _n, cls_, fields, vals = cand[hit]
+                    for f, v in zip(fields, vals):
+                        if field_name(hit, f) != f"{hit}__{f}":
+                            continue        # the field is the local it was initialised from
+                        a = ast.copy_location(ast.Assign(targets=[ast.Name(id=f"{hit}__{f}", ctx=ast.Store())], value=_R().visit(v), lineno=st.lineno), st)
+                        out.append(a)
+                    continue
+                st2 = self.visit(st)
+                out.append(st2)
+            return out
+
+        def generic_visit(self, node):
+            for field in ("body", "orelse", "finalbody"):
+                val = getattr(node, field, None)
+                if isinstance(val, list) and val and isinstance(val[0], ast.stmt):
+                    setattr(node, field, self._stmts(val))
+            for h in getattr(node, "handlers", []) or []:
+                h.body = self._stmts(h.body)
+            # expressions of this statement
+            for field, val in ast.iter_fields(node):
+                if field in ("body", "orelse", "finalbody", "handlers"):
+                    continue
+                if isinstance(val, ast.AST):
+                    setattr(node, field, _R().visit(val))
+                elif isinstance(val, list):
+                    setattr(node, field, [(_R().visit(x) if isinstance(x, ast.AST) else x) for x in val])
+            return node
+    fn.body = _A()._stmts(fn.body)
+    ast.fix_missing_locations(fn)
+
+
 class _SubstName(ast.NodeTransformer):
     """replace loads of a name by a (constant) expression"""
     def __init__(self, mapping):
@@ -284,6 +374,9 @@ class Normalizer:
         new = copy.deepcopy(fn)
         _spread_tuple_stars(new)
         new.body = self._block(new.body, self.cls, self.depth)
+        recs = getattr(self, "records", None)
+        if recs:
+            _scalar_replace_records(new, recs)
         ast.fix_missing_locations(new)
         return new
 
